@@ -2,12 +2,14 @@ package main
 
 // The rule-swap window.
 //
-// With SetDisableSuggestion(true) executor.parseQuery rewrites gqlparser's process-global rule
-// slice on every request: validator.RemoveRule("FieldsOnCorrectType") and then
-// validator.ReplaceRule(<rule without suggestions>). Between the two calls of the FIRST such
-// request of a process the rule set contains no field-existence rule at all. The guarded hook
-// graphql/verifhook (build tag verif) marks that point ("executor.rules.between"); this stage
-// parks the first request there and meanwhile sends a document with an unknown field to a second
+// SetDisableSuggestion(true) swaps a rule of gqlparser's process-global rule set: the suggesting
+// FieldsOnCorrectType rule is exchanged for the one without suggestions. Whatever order and place
+// the two updates have (originally on every request, now once while the executor is configured),
+// between them another executor of the same process may be validating; if the rule set then has
+// no field-existence rule at all, a document with an unknown field passes validation. The guarded
+// hook graphql/verifhook (build tag verif) marks the point between the two updates
+// ("executor.rules.between"); this stage parks whoever reaches it first (the configuring
+// goroutine or the first request) and meanwhile sends a document with an unknown field to a second
 // executor of the same process. The document is invalid by construction, so it must be refused
 // with no hook / resolver event and no data. The window exists once per process, so every variant
 // runs in a fresh child process (this binary re-executed with VERIF_C03_WINDOW set).
@@ -38,6 +40,7 @@ type windowSpec struct {
 type windowResult struct {
 	Spec          windowSpec `json:"spec"`
 	HookReached   bool       `json:"hook_reached"`
+	HookPhase     string     `json:"hook_phase"` // configuration (inside SetDisableSuggestion) | request
 	BlockedInB    bool       `json:"second_request_blocked_until_release"`
 	Query         string     `json:"query"`
 	Refused       bool       `json:"refused"`
@@ -75,11 +78,14 @@ func windowChild() {
 	}
 	res := windowResult{Spec: spec}
 	all := extList{63}
-	a := newServer(config{Probe: spec.Probe, Cache: spec.CacheA, DisableSuggestion: true, Exts: all})
-	b := a
-	if !spec.Same {
-		b = newServer(config{Probe: spec.Probe, Cache: spec.CacheB, DisableSuggestion: false, Exts: all, HTTP: spec.HTTPB})
+	// the second executor exists before anybody disables suggestions
+	cb := spec.CacheB
+	if spec.Same {
+		cb = spec.CacheA
 	}
+	b0 := newServer(config{Probe: spec.Probe, Cache: cb, DisableSuggestion: false, Exts: all, HTTP: spec.HTTPB})
+	var a *server
+	aReady := make(chan struct{})
 	reached := make(chan struct{})
 	release := make(chan struct{})
 	first := true
@@ -101,14 +107,30 @@ func windowChild() {
 	plan := &univ.SeedPlan{Seed: 7, MaxList: 2}
 	okDoc := &variant{Name: "window-valid", Query: "query V { scalarN }", OpName: "V", fields: 1, rootFields: 1}
 	firstDone := make(chan *outcome, 1)
-	go func() { firstDone <- a.run(step{V: okDoc}, plan) }()
+	// the swap happens either while the executor is being configured (SetDisableSuggestion) or on
+	// its first request; whichever reaches the hook point first is parked there
+	go func() {
+		a = newServer(config{Probe: spec.Probe, Cache: spec.CacheA, DisableSuggestion: true, Exts: all})
+		close(aReady)
+		firstDone <- a.run(step{V: okDoc}, plan)
+	}()
 	select {
 	case <-reached:
 		res.HookReached = true
 	case o := <-firstDone:
-		// the hook point is not on the request path (any more): there is no window to hold open
+		// the hook point was never reached: there is no window to hold open
 		firstDone <- o
 	case <-time.After(20 * time.Second):
+	}
+	b := b0
+	select {
+	case <-aReady:
+		res.HookPhase = "request"
+		if spec.Same {
+			b = a
+		}
+	default:
+		res.HookPhase = "configuration"
 	}
 	bad := &variant{Name: "window-unknown-field-" + spec.Doc, Stage: "validate", Query: windowDoc(spec.Doc), OpName: "W"}
 	res.Query = bad.Query
@@ -127,6 +149,7 @@ func windowChild() {
 		o = <-secondDone
 	}
 	fo := <-firstDone
+	<-aReady
 	res.FirstOK = !fo.refused && fo.hasData && fo.panicked == ""
 	res.Refused, res.HasData, res.Body, res.Status, res.Panic = o.refused, o.hasData, o.body, o.status, o.panicked
 	res.Trace = renderTrace(o.events, 60)
@@ -240,6 +263,7 @@ func runWindowStage(probes []string, seed int64) {
 		rep.Count("class_refused:validate", 2)
 		if res.HookReached {
 			rep.Count("window_hook_reached", 1)
+			rep.Count("window_hook_reached_during_"+res.HookPhase, 1)
 		} else {
 			rep.Count("window_hook_not_on_request_path", 1)
 		}
@@ -250,7 +274,7 @@ func runWindowStage(probes []string, seed int64) {
 		if res.Verdict != "" {
 			rep.Count("window_unknown_field_document_executed", 1)
 			rep.Violate(windowSig, map[string]any{"why": res.Verdict, "oracle_signature": res.VerdictSig, "result": res,
-				"how": "request 1 (executor with SetDisableSuggestion(true)) parked at verifhook point executor.rules.between; request 2 = the shown query on a second executor of the same process"})
+				"how": "the executor with SetDisableSuggestion(true) parked at verifhook point executor.rules.between (see hook_phase: while being configured, or on its first request); meanwhile the shown query was sent to a second executor of the same process"})
 		} else {
 			rep.Count("window_unknown_field_document_refused", 1)
 		}
